@@ -104,20 +104,27 @@ OffsetByTimeOK(live, hasTimes, t, r) ==
        IF cand = <<>> THEN r.err = "NotFound" ELSE r.err = "" /\ r.off = cand[1].off /\ r.mt = cand[1].t
 
 \* ---- C12: Delete.  segver[off] = format version of the file holding off (for the size)
+DeletedCoreOK(live, segver, par, S, r) ==
+  LET D == Offs(r.deleted) IN
+  /\ D \subseteq S /\ Cardinality(D) = Len(r.deleted)
+  /\ \A i \in 1..Len(r.deleted) : r.deleted[i] \in Range(live)        \* live, full original content
+  /\ r.size = SumOver(r.deleted, LAMBDA m : RecSize(m, segver[m.off]) + ItemSize(par))
 DeleteOK(live, segver, par, S, r) ==
   IF S = {} THEN r.err = "" /\ r.deleted = <<>> /\ r.size = 0
   ELSE IF \E o \in S : o < 0 THEN r.err = "InvalidOffset" /\ r.deleted = <<>>
-  ELSE LET D == Offs(r.deleted) IN
-       /\ D \subseteq S
+  ELSE /\ DeletedCoreOK(live, segver, par, S, r)
        /\ StrictlyIncreasing(r.deleted)
-       /\ \A i \in 1..Len(r.deleted) : r.deleted[i] \in Range(live)        \* live, full original content
-       /\ r.size = SumOver(r.deleted, LAMBDA m : RecSize(m, segver[m.off]) + ItemSize(par))
        /\ r.err # "" => /\ r.deleted = <<>>
                         /\ r.err = "NotFound" /\ Min(S) \notin Offs(live)  \* e.g. below the oldest segment
 DeleteEffect(live, r) == Minus(live, Offs(r.deleted))
+\* DeleteMulti repeats Delete until a pass deletes nothing; it may stop with NotFound (and what it deleted so far)
+\* when a remaining requested offset is not live; over a set of live offsets it removes all of them
 DeleteMultiOK(live, segver, par, S, r) ==
-  /\ DeleteOK(live, segver, par, S, r)
-  /\ (S \subseteq Offs(live) /\ r.err = "") => Offs(r.deleted) = S
+  IF S = {} THEN r.err = "" /\ r.deleted = <<>> /\ r.size = 0
+  ELSE IF \E o \in S : o < 0 THEN r.err = "InvalidOffset" /\ r.deleted = <<>>
+  ELSE /\ DeletedCoreOK(live, segver, par, S, r)
+       /\ r.err # "" => (r.err = "NotFound" /\ ~(S \subseteq Offs(live)))
+       /\ (S \subseteq Offs(live)) => (r.err = "" /\ Offs(r.deleted) = S)
 
 \* ---- C13: Stat
 StatOK(live, fsSegments, fsBytes, r) ==
